@@ -136,24 +136,56 @@ func resizeSweep(idx, n int) {
 								}
 							}
 						}
+						// every other case: the image has been resized before, to the largest box (an image object
+						// lives across frames and layouts; what it remembers must not leak into the next Resize)
+						pre := (wp+hp+bw+bh)%2 == 0
+						if pre {
+							cols0, lines0 := ceilDiv(wPix, p.cw), ceilDiv(hPix, p.ch)
+							if cols0 > maxBox || lines0 > maxBox {
+								sf := float64(maxBox) / float64(cols0)
+								if sy := float64(maxBox) / float64(lines0); sy < sf {
+									sf = sy
+								}
+								if int(sf*float64(wPix)) == 0 || int(sf*float64(hPix)) == 0 {
+									pre = false
+								}
+							}
+						}
+						if pre {
+							cs += " (resized to the largest box before)"
+						}
 						var gw, gh int
 						panicked, site, msg := explore.Guard(func() {
 							switch p.name {
 							case "halfblock":
 								im := s.Vx.NewHalfBlockImage(img)
+								if pre {
+									im.Resize(maxBox, maxBox)
+								}
 								im.Resize(bw, bh)
 								gw, gh = im.CellSize()
 							case "fullblock":
 								im := s.Vx.NewFullBlockImage(img)
+								if pre {
+									im.Resize(maxBox, maxBox)
+								}
 								im.Resize(bw, bh)
 								gw, gh = im.CellSize()
 							case "kitty":
 								im := s.Vx.NewKittyGraphic(img)
+								if pre {
+									im.Resize(maxBox, maxBox)
+									waitRedraw(s)
+								}
 								im.Resize(bw, bh)
 								waitRedraw(s)
 								gw, gh = im.CellSize()
 							case "sixel":
 								im := s.Vx.NewSixel(img)
+								if pre {
+									im.Resize(maxBox, maxBox)
+									waitRedraw(s)
+								}
 								im.Resize(bw, bh)
 								waitRedraw(s)
 								gw, gh = im.CellSize()
@@ -727,7 +759,7 @@ func main() {
 	n := r.Get("resize_cases") + r.Get("block_cases") + r.Get("contain_cases") + trans
 	r.Finish(explore.Coverage{
 		States: -1, Transitions: n, Traces: n, Evaluations: n,
-		Rule:        "Resize: every image size 1..12 x 1..12 px (scaled with the cell geometry) x every box 0..7 x 0..7 for half-block and full-block (cell 1x2) and for kitty and sixel under cell geometries 1x1, 2x2, 2x3 (images up to 24x24 px), 8x16, 10x20 (pixel sizes learnt through the in-band resize report): box, no-upscale and aspect-within-one-cell. Block rendering: every assignment of a 7-value pixel alphabet (opaque, alpha 0/49/50/128, premultiplied half alpha) to images of 1x1..2x3 pixels, drawn and rendered, cell colours read from the reference terminal. Containment: kitty, sixel and half-block images of 1..4 x 1..3 cells into 5 windows. Placement histories: BFS to depth n over 14 frames {A absent / at two positions} x {B} x {Render, Refresh} + resize A, for kitty and sixel; the graphics commands of the last frame are compared with what the placement diff requires. distinct = cases/states that passed; block resize history: every 4x4 px image of four quadrants over the pixel alphabet, resized to 6x6 and then to each of four smaller boxes, must draw exactly what a fresh image resized once draws",
+		Rule:        "Resize: every image size 1..12 x 1..12 px (scaled with the cell geometry) x every box 0..7 x 0..7 for half-block and full-block (cell 1x2) and for kitty and sixel under cell geometries 1x1, 2x2, 2x3 (images up to 24x24 px), 8x16, 10x20 (pixel sizes learnt through the in-band resize report): box, no-upscale and aspect-within-one-cell. Block rendering: every assignment of a 7-value pixel alphabet (opaque, alpha 0/49/50/128, premultiplied half alpha) to images of 1x1..2x3 pixels, drawn and rendered, cell colours read from the reference terminal. Containment: kitty, sixel and half-block images of 1..4 x 1..3 cells into 5 windows. Placement histories: BFS to depth n over 14 frames {A absent / at two positions} x {B} x {Render, Refresh} + resize A, for kitty and sixel; the graphics commands of the last frame are compared with what the placement diff requires. distinct = cases/states that passed; block resize history: every 4x4 px image of four quadrants over the pixel alphabet, resized to 6x6 and then to each of four smaller boxes, must draw exactly what a fresh image resized once draws; in every other resize case the image object has been resized to the largest box before",
 		Exhaustive:  true,
 		Bounds:      map[string]any{"placement_depth": r.Pick(4, 6), "placement_states": states},
 		Assumptions: []string{"un-premultiplied colours are compared with a tolerance of 1 per channel (rounding)", "aspect within one cell: some scale in (0,1] puts both dimensions within one cell of the result"},
